@@ -13,13 +13,17 @@ use crate::engine::{catch, fnv64, fp, Args, CaseH, Ctx, ReplayDoc, Verdict};
 use crate::gen::building::{self as gb, Bld, WallKind};
 use crate::{vensure, vfail};
 
-const BIN_DIR: &str = "/verif/target/repo-bins";
-const TMP: &str = "/verif/target/tmp/c01";
+fn bin_dir() -> PathBuf {
+    crate::engine::target_dir().join("repo-bins")
+}
+fn tmp_dir() -> PathBuf {
+    crate::engine::target_dir().join("tmp").join("c01")
+}
 
 fn build_bins() -> Result<(), String> {
     let out = Command::new("cargo")
         .args(["build", "--offline", "--manifest-path", "/repo/Cargo.toml", "-p", "hulc2model", "-p", "bemodel", "--bins"])
-        .env("CARGO_TARGET_DIR", BIN_DIR)
+        .env("CARGO_TARGET_DIR", bin_dir())
         .env("CARGO_NET_OFFLINE", "true")
         .output()
         .map_err(|e| e.to_string())?;
@@ -30,7 +34,7 @@ fn build_bins() -> Result<(), String> {
 }
 
 fn bin(name: &str) -> PathBuf {
-    Path::new(BIN_DIR).join("debug").join(name)
+    bin_dir().join("debug").join(name)
 }
 
 #[derive(Clone, Debug, Serialize, Deserialize)]
@@ -110,7 +114,7 @@ fn materialise(d: &Dir, tag: u64) -> Option<PathBuf> {
     match d {
         Dir::Shipped(p) => Some(PathBuf::from(p)),
         Dir::Generated { b, extra } => {
-            let dir = Path::new(TMP).join(format!("g{:016x}", tag));
+            let dir = tmp_dir().join(format!("g{:016x}", tag));
             let _ = std::fs::remove_dir_all(&dir);
             std::fs::create_dir_all(&dir).ok()?;
             let sys = gb::shipped_systems_sections();
@@ -127,13 +131,13 @@ fn materialise(d: &Dir, tag: u64) -> Option<PathBuf> {
             Some(dir)
         }
         Dir::Empty => {
-            let dir = Path::new(TMP).join(format!("e{:016x}", tag));
+            let dir = tmp_dir().join(format!("e{:016x}", tag));
             let _ = std::fs::remove_dir_all(&dir);
             std::fs::create_dir_all(&dir).ok()?;
             Some(dir)
         }
         Dir::Unrelated => {
-            let dir = Path::new(TMP).join(format!("u{:016x}", tag));
+            let dir = tmp_dir().join(format!("u{:016x}", tag));
             let _ = std::fs::remove_dir_all(&dir);
             std::fs::create_dir_all(&dir).ok()?;
             std::fs::write(dir.join("notas.txt"), "nada que ver\n").ok()?;
@@ -172,7 +176,7 @@ fn check_run(h: &CaseH, c: &RunCase) -> Verdict {
     };
     let dirs = dir.to_string_lossy().to_string();
     let cleanup = |d: &Path| {
-        if d.starts_with(TMP) {
+        if d.starts_with(tmp_dir()) {
             let _ = std::fs::remove_dir_all(d);
         }
     };
@@ -271,7 +275,7 @@ pub struct ThorCase {
 
 fn check_thor(h: &CaseH, c: &ThorCase) -> Verdict {
     let tag = fnv64(format!("{:?}{:?}", std::thread::current().id(), fp(c)).as_bytes());
-    let dir = Path::new(TMP).join(format!("t{:016x}", tag));
+    let dir = tmp_dir().join(format!("t{:016x}", tag));
     let _ = std::fs::remove_dir_all(&dir);
     if std::fs::create_dir_all(&dir).is_err() {
         return Verdict::Pass;
@@ -336,7 +340,7 @@ pub fn run(args: &Args) -> ! {
         ctx.infra_error(format!("cannot build the repository's binaries: {}", e));
         ctx.finish();
     }
-    let _ = std::fs::create_dir_all(TMP);
+    let _ = std::fs::create_dir_all(tmp_dir());
     ctx.replay_regressions(replay_one);
     let mut cases = vec![];
     for d in shipped_dirs() {
